@@ -180,10 +180,12 @@ type dsSim struct {
 	reqThisConn    map[bitcoin.Hash32]int  // block hash -> times requested on this connection
 	reqLive        map[bitcoin.Hash32]bool // requested on this connection and, at the end of the last step, still outstanding (in the request queue or in processing): its branch was not abandoned
 	wireRequests   int
+	forkInWindow   int // forkwindow steps that found a requested, unprocessed block to fork at
 	rerequests     int // legitimate repeats on one connection (after the node abandoned the branch)
 	// the node was restarted on a stored chain that no longer contains the configured start block
 	// although the start block had been found before (known finding of C02, see DESIGN §5)
 	startOrphanedAtRestart bool
+	probeIf                func() bool // structural probe after every step once this holds (C10: after the injected fault fired)
 }
 
 // guard runs node code and turns a panic into a finding (in the real node the goroutine, and
@@ -280,6 +282,21 @@ func (s *dsSim) reconnect() {
 	s.connect()
 }
 
+// overtakeBlocks queues an announcement ahead of block replies that are still waiting (the peer
+// is slow to serve blocks) but behind every headers message already on its way: header messages
+// keep the order in which the peer sent them.
+func (s *dsSim) overtakeBlocks(a []wire.Message) {
+	pos := 0
+	for i, m := range s.inbox {
+		if _, ok := m.(*wire.MsgHeaders); ok {
+			pos = i + 1
+		}
+	}
+	in := append([]wire.Message(nil), s.inbox[:pos]...)
+	in = append(in, a...)
+	s.inbox = append(in, s.inbox[pos:]...)
+}
+
 // feed routes what the node queued to the peer and queues the peer's replies.
 func (s *dsSim) feed() bool {
 	out := s.e.drain()
@@ -345,19 +362,24 @@ func (s *dsSim) deliver() {
 	m := s.inbox[i]
 	s.inbox = append(s.inbox[:i], s.inbox[i+1:]...)
 	if s.pol.dupPct > 0 && s.r.Intn(100) < s.pol.dupPct {
+		// The peer sends the message twice in a row.  (The copy used to be queued behind
+		// everything else; it could then arrive after the peer had announced another branch,
+		// which no Bitcoin node does on an ordered connection - see DESIGN §7.)
+		var dup wire.Message
 		switch mm := m.(type) {
 		case *wire.MsgHeaders:
-			s.inbox = append(s.inbox, mm)
+			dup = mm
 		case *wire.MsgBlock:
-			b := s.peer.tree.ByHash[*mm.Header.BlockHash()]
-			if b != nil {
-				s.inbox = append(s.inbox, blockMsg(b.Msg(), false))
+			if b := s.peer.tree.ByHash[*mm.Header.BlockHash()]; b != nil {
+				dup = blockMsg(b.Msg(), false)
 			}
 		case *wire.MsgParseBlock:
-			b := s.peer.tree.ByHash[*mm.Header.BlockHash()]
-			if b != nil {
-				s.inbox = append(s.inbox, blockMsg(b.Msg(), true))
+			if b := s.peer.tree.ByHash[*mm.Header.BlockHash()]; b != nil {
+				dup = blockMsg(b.Msg(), true)
 			}
+		}
+		if dup != nil {
+			s.inbox = append([]wire.Message{dup}, s.inbox...)
 		}
 	}
 	s.handle(m)
@@ -441,7 +463,7 @@ func (s *dsSim) afterStep(what string) {
 	if q.PendingSize != sum {
 		s.find("C13", "C13/wire/bytes-accounting", fmt.Sprintf("after %s the buffered-bytes counter is %d, the buffered bodies sum to %d", what, q.PendingSize, sum))
 	}
-	if s.pol.probeEvery {
+	if s.pol.probeEvery || (s.probeIf != nil && s.probeIf()) {
 		s.probeChain(what)
 	}
 	if s.e.procErr != nil {
